@@ -227,7 +227,7 @@ type c11Rep struct {
 
 var c11Reps = []c11Rep{
 	{"types.U32", []cgenDev{{"", 2}}, false},
-	{"types.ByteSequence", []cgenDev{{"", 3}}, false},
+	{"types.ByteSequence", []cgenDev{{"~", 3}}, false},
 	{"types.Header", nil, false},
 	{"types.Header", []cgenDev{{".EpochMark#some", 1}}, false},
 	{"types.WorkReport", []cgenDev{{".Results#len", 1}}, false},
@@ -235,9 +235,9 @@ var c11Reps = []c11Rep{
 	{"types.WorkItem", []cgenDev{{".ImportSegments#len", 1}, {".ImportSegments[0].TreeRoot", 1}}, true},
 	{"types.WorkItem", []cgenDev{{".ImportSegments#len", 1}, {".ImportSegments[0].TreeRoot", 1}}, false},
 	{"types.ServicesStatistics", []cgenDev{{"#keys", 4}}, false},
-	{"types.StateKeyVals", []cgenDev{{"#len", 2}, {"[1].Value", 3}}, false},
+	{"types.StateKeyVals", []cgenDev{{"#len", 2}, {"[1].Value~", 3}}, false},
 	{"types.TicketsOrKeys", []cgenDev{{"#tag", 1}}, false},
-	{"types.Extrinsic", []cgenDev{{".Preimages#len", 1}, {".Preimages[0].Blob", 2}}, false},
+	{"types.Extrinsic", []cgenDev{{".Preimages#len", 1}, {".Preimages[0].Blob~", 2}}, false},
 }
 
 func c11RepValue(i int) (reflect.Value, c11Rep) {
